@@ -15,6 +15,9 @@ chunking (hence identical across chunkings).
 import asyncio
 import uuid
 
+from ..impl import c18_usage as us
+from ..translate import c18 as tr
+
 PROPERTY = "C18"
 THEOREM_MODULE = "NemoVerif.Theorems.C18"
 RULE = ("configuration: prefix/suffix (absent or 1-3 chars) and 0-3 stop sequences (1-3 chars) over an alphabet of 2-5 "
@@ -41,15 +44,16 @@ ENDS = ["empty", "none", "llm_end", "empty+llm_end"]
 
 
 def translate():
-    """No generated data for C18 (the patterns are run-time configuration); record which source is modelled."""
-    from ..translate import util
+    """Generated/C18.lean: the pattern literals generation.py configures per call site, k, the order of
+    `.stop = [...]` / `disable_buffering()`, whether streaming.py records chunks while buffering."""
+    return tr.run()
 
-    tree = util.parse("nemoguardrails/streaming.py")
-    fps = {}
-    for name in ("push_chunk", "_process", "on_llm_end", "on_llm_new_token"):
-        fps[name] = util.fingerprint(util.find_def(tree, name, cls="StreamingHandler"))
-    has_fix = any(getattr(n, "name", None) == "_remove_suffix_at_end" for n in util.find_def(tree, "StreamingHandler").body)
-    return {"fingerprints": fps, "source": "streaming.py with fixes/C18-streaming-chunk-invariance.diff applied" if has_fix else "streaming.py without the C18 fix (open findings expected)"}
+
+def units_of(case):
+    """the individual handler runs of a case (chunkings, or [chunks, a, b, end] schedules for usage cases)"""
+    if case.get("kind") == "usage":
+        return us.units(case)
+    return chunkings_of(case)
 
 # --------------------------------------------------------------------------------------------- chunkings
 
@@ -197,6 +201,60 @@ def g_malformed_case(rng):
     return dict(cfg, text=text, end=rng.choice(ENDS), pipe=rng.random() < 0.3, feed="token" if rng.random() < 0.3 else "push", mode="list", chunkings=cks, malformed=True)
 
 
+USAGE_HEADS = ["u\nb\n", "u\n\nb\n", "#c\nu\nb\n", " u\n b\n", "u\nb\n\n"]
+
+
+def g_usage_small(rng, maxbody):
+    """small single-call case: 2 header lines, then a bot-message line over a tiny alphabet; every chunking x every schedule"""
+    prefix, suffix, stop = rng.choice([('  "', '"', ['"\n']), ('B"', '"', ['"\n']), ('  "', '"', ['"\n', "\nu"]), ('P', 'S', ['SX']), ('P', None, ['X']), (None, '"', ['"\n'])])
+    head = rng.choice(USAGE_HEADS)
+    alpha = ('ab" \n' if '"' in (suffix or "") + "".join(stop) else "abSXP\n")
+    body = "".join(rng.choice(alpha) for _ in range(rng.randint(0, maxbody)))
+    r = rng.random()
+    pre = (prefix or "") if r < 0.8 else (prefix or "")[:-1] if r < 0.9 else ""
+    tail = rng.choice(["", suffix or "", (suffix or "") + "\n", (stop[0] if stop else "") + "x", (suffix or "") + "\nb"])
+    text = head + pre + body + tail
+    if len(text) > 9:
+        text = head + pre + tail
+    text = text[:10]
+    return dict(kind="usage", prefix=prefix, suffix=suffix, stop=stop, k=2, text=text, mode="all", direct=False)
+
+
+def g_usage_long(rng, sites, nsamples):
+    """a call site extracted from generation.py, a realistic LLM completion, sampled chunkings x sampled schedules"""
+    site = rng.choice(sites)
+    intent = rng.choice(["  express greeting", "user express greeting", "User intent: ask question", "  ask about é"])
+    botint = rng.choice(["bot express greeting", "Bot intent: respond", "bot inform"])
+    msg = "".join(rng.choice(WORDS) for _ in range(rng.randint(1, 10))).replace("\n", " ")
+    r = rng.random()
+    tail = "" if r < 0.4 else "\n" if r < 0.6 else "\nbot ask" + rng.choice(["", " more\n  \"x\""]) if r < 0.85 else "\n\n"
+    line3 = (site["prefix"] if rng.random() < 0.9 else "") + msg + (site["suffix"] if rng.random() < 0.9 else "")
+    text = rng.choice(["", "\n", "# c\n"]) + intent + "\n" + rng.choice(["", "\n"]) + botint + "\n" + line3 + tail
+    if not site["buffered"]:
+        text = line3 + tail
+        cks = [[text], list(text)] + [random_chunking(rng, text, rng.choice([0.1, 0.3, 0.6])) for _ in range(nsamples)]
+        return dict(kind="usage", prefix=site["prefix"] or None, suffix=site["suffix"] or None, stop=site["stop"], k=site["k"], text=text, mode="list", direct=True, chunkings=cks, site=site["site"])
+    scheds = []
+    for _ in range(nsamples):
+        cs = random_chunking(rng, text, rng.choice([0.1, 0.3, 0.6, 1.0]))
+        n = len(cs)
+        for _ in range(3):
+            a = rng.randint(1, n)
+            b = rng.choice([0, 0, 1, 2, n - a, rng.randint(0, n - a)])
+            b = min(b, n - a)
+            ends = [0] + ([1] if a + b == n else []) + ([2] if a == n else [])
+            scheds.append([cs, a, b, rng.choice(ends)])
+    return dict(kind="usage", prefix=site["prefix"] or None, suffix=site["suffix"] or None, stop=site["stop"], k=site["k"], text=text, mode="list", direct=False, schedules=scheds, site=site["site"])
+
+
+def gen_usage_cases(rng, tier):
+    info = tr.run()
+    n_small, maxbody, n_long, ns = (70, 3, 300, 6) if tier == "quick" else (500, 5, 5000, 8)
+    cases = [g_usage_small(rng, maxbody) for _ in range(n_small)]
+    cases += [g_usage_long(rng, info["sites"], ns) for _ in range(n_long)]
+    return cases
+
+
 def gen_cases(rng, tier):
     if tier == "quick":
         n_ex, maxlen, n_long, ns, n_mal = 5000, 7, 2500, 14, 400
@@ -210,7 +268,7 @@ def gen_cases(rng, tier):
         cases.append(g_long_case(rng, ns))
     for _ in range(n_mal):
         cases.append(g_malformed_case(rng))
-    return cases
+    return cases + gen_usage_cases(rng, tier)
 
 
 # --------------------------------------------------------------------------------------------- implementation
@@ -226,11 +284,11 @@ def worker_init():
     from nemoguardrails.streaming import StreamingHandler
 
     logging.getLogger("nemoguardrails.streaming").setLevel(logging.ERROR)
-    _H = (StreamingHandler, GenerationChunk)
+    _H = (StreamingHandler, GenerationChunk, tr.run()["stop_before_disable"])
 
 
 async def _one(case, chunks):
-    StreamingHandler, GenerationChunk = _H
+    StreamingHandler, GenerationChunk = _H[0], _H[1]
     h = StreamingHandler()
     h.set_pattern(prefix=case["prefix"], suffix=case["suffix"])
     h.stop = list(case["stop"])
@@ -270,13 +328,33 @@ async def _all(case):
     return runs
 
 
+async def _all_usage(case):
+    runs = []
+    for unit in us.units(case):
+        try:
+            if case.get("direct"):
+                runs.append(await asyncio.wait_for(us.run_direct(_H[0], case, unit), 20))
+            else:
+                runs.append(await asyncio.wait_for(us.run_single_call(_H[0], case, unit, _H[2]), 20))
+        except Exception as e:  # noqa
+            runs.append({"event": True, "items": ["<exc>"], "completion": "<exc:" + type(e).__name__ + ">", "finished": False})
+    return runs
+
+
 def run_impl(case):
+    if case.get("kind") == "usage":
+        return {"runs": asyncio.run(_all_usage(case))}
     return {"runs": asyncio.run(_all(case))}
 
 
 # --------------------------------------------------------------------------------------------- model
 
 def model_requests(case, obs):
+    if case.get("kind") == "usage":
+        req = {"m": "C18.usage", "cfg": {"prefix": case["prefix"], "suffix": case["suffix"], "stop": case["stop"]}, "k": case["k"],
+               "direct": bool(case.get("direct")), "schedules": us.units(case), "variant": "repaired"}
+        # [0] the repaired usage (the model usage_chunk_invariant is about), [1] streaming.py/generation.py as they are in the tree under test
+        return [req, dict(req, variant="tree")]
     req = {"m": "C18.runMany", "cfg": {"prefix": case["prefix"], "suffix": case["suffix"], "stop": case["stop"]},
            "end": case["end"], "tokens": case["feed"] == "token", "pipe": bool(case["pipe"]), "chunkings": chunkings_of(case)}
     # [0] the repaired handler (the model the theorems are about), [1] the handler as it is in the unpatched tree
@@ -285,14 +363,43 @@ def model_requests(case, obs):
 
 def _pick(case, bad):
     """among the failing chunkings report first one outside every recorded structural class, else the first."""
-    cks = chunkings_of(case)
+    cks = units_of(case)
     for k, msg in bad:
         if classify(case, cks[k]) is None:
             return k, msg
     return bad[0]
 
 
+def compare_usage(case, obs, mouts):
+    m, ma = mouts[0], mouts[1]
+    runs = obs["runs"]
+    if len(m) != len(runs) or len(ma) != len(runs):
+        return f"model answered {len(m)}/{len(ma)} runs for {len(runs)} schedules"
+    bad, unexplained = [], []
+    for k, (r, mr, mar) in enumerate(zip(runs, m, ma)):
+        if not r.get("event", True):
+            ok = mr.get("event") is False
+            ok_tree = mar.get("event") is False
+            got = r
+        else:
+            got = dict(r)
+            got.pop("event", None)
+            ok = got == {x: mr[x] for x in ("items", "completion", "finished")} and mr.get("event", True)
+            ok_tree = got == {x: mar[x] for x in ("items", "completion", "finished")} and mar.get("event", True)
+        if not ok:
+            bad.append((k, f"implementation {got} but model {mr}" + (" (the model of the tree as it is agrees with the implementation)" if ok_tree else f"; NEITHER does the model of the tree as it is agree: {mar}")))
+            if not ok_tree:
+                unexplained.append(bad[-1])
+    obs["model_vs_impl"] = {"differ": len(bad), "explained_by_as_is_model": len(bad) - len(unexplained), "unexplained": [k for k, _ in unexplained[:3]]}
+    if not bad:
+        return None
+    k, msg = unexplained[0] if unexplained else _pick(case, bad)
+    return f"[#{k}] schedule {us.units(case)[k]!r}: {msg}"
+
+
 def compare(case, obs, mouts):
+    if case.get("kind") == "usage":
+        return compare_usage(case, obs, mouts)
     m, ma = mouts[0], mouts[1]
     runs = obs["runs"]
     if len(m) != len(runs) or len(ma) != len(runs):
@@ -331,7 +438,36 @@ def expected(case):
     return t
 
 
+def expected_usage(case):
+    """what the user's handler must receive: the pattern of the call site applied to the part of the LLM text
+    that follows its first k non-empty lines (generate_intent_steps_message keeps those for itself)"""
+    text = case["text"] if case.get("direct") else us.rest_after_top_k(case["text"], case["k"])
+    if text is None:
+        return None
+    return expected(dict(case, text=text, end="llm_end"))
+
+
+def _failures_usage(case, obs):
+    exp = expected_usage(case)
+    bad = []
+    if exp is None:
+        return bad
+    for k, r in enumerate(obs["runs"]):
+        if not r.get("event", True):
+            continue  # not a schedule the library can produce (the waiter cannot have resumed yet)
+        delivered = "".join(x for x in r["items"] if isinstance(x, str))
+        if delivered != exp:
+            bad.append((k, f"the user's handler received {delivered!r}, expected {exp!r}"))
+        elif r["completion"] != exp:
+            bad.append((k, f"completion {r['completion']!r}, expected {exp!r} (delivered text is right)"))
+        elif not r["finished"]:
+            bad.append((k, f"the stream never finishes (wait() would hang), delivered text {delivered!r} is right"))
+    return bad
+
+
 def _failures(case, obs):
+    if case.get("kind") == "usage":
+        return _failures_usage(case, obs)
     exp = expected(case)
     bad = []
     for k, r in enumerate(obs["runs"]):
@@ -350,6 +486,8 @@ def oracle(case, obs):
     if not bad:
         return None
     k, msg = _pick(case, bad)
+    if case.get("kind") == "usage":
+        return f"[#{k}] usage {'direct' if case.get('direct') else 'single-call'} text {case['text']!r} schedule (chunks, a, b, end) {us.units(case)[k]!r}: {msg}; {len(bad)}/{len(obs['runs'])} schedules fail"
     outs = {("".join(x for x in r[0] if isinstance(x, str)), r[1]) for r in obs["runs"]}
     return f"[#{k}] text {case['text']!r} chunks {chunkings_of(case)[k]!r}: {msg}; {len(bad)}/{len(obs['runs'])} chunkings fail, {len(outs)} distinct (delivered, completion) results"
 
@@ -360,8 +498,32 @@ def _ends_with_part_of(s, pat):
     return any(s.endswith(pat[:l]) for l in range(1, len(pat) + 1))
 
 
+def classify_usage(case, unit):
+    """regions of the usage findings: (configuration, text, chunking, schedule)"""
+    if case.get("direct"):
+        return None
+    cs, a, b, end = unit
+    if end in (1, 2):
+        return "usage-llm-end-while-buffering"
+    if b > 0:
+        return "usage-token-between-set-pattern-and-disable-buffering"
+    rest = us.rest_after_top_k(case["text"], case["k"])
+    if rest is None:
+        return None
+    consumed = "".join(cs[:a])
+    buffered = rest[: max(0, len(rest) - (len(case["text"]) - len(consumed)))]
+    if case["prefix"] and buffered.startswith(case["prefix"]):
+        buffered = buffered[len(case["prefix"]):]
+    for s in case["stop"]:
+        if s and (s in buffered or _ends_with_part_of(buffered, s)):
+            return "usage-stop-set-after-buffer-flushed"
+    return None
+
+
 def classify(case, chunks):
     """Structural class of (configuration, text, chunking) — the regions of the open findings."""
+    if case.get("kind") == "usage":
+        return classify_usage(case, chunks)
     t = case["text"]
     pre = case["prefix"]
     rest_first = None  # remainder of the chunk that completes the prefix
@@ -396,7 +558,7 @@ def signature(case, obs, msg):
         return None  # inside a recorded region the code must still behave like the as-is model
     try:
         k = int(msg.split("[#", 1)[1].split("]", 1)[0])
-        return classify(case, chunkings_of(case)[k])
+        return classify(case, units_of(case)[k])
     except Exception:  # noqa
         return None
 
@@ -404,6 +566,8 @@ def signature(case, obs, msg):
 # --------------------------------------------------------------------------------------------- evidence helpers
 
 def nontrivial(case, obs):
+    if case.get("kind") == "usage":
+        return len(obs["runs"]) >= 2 and expected_usage(case) is not None and any(r.get("event", True) for r in obs["runs"])
     if case.get("malformed") or len(obs["runs"]) < 2:
         return False
     pats = [p for p in [case["suffix"]] + case["stop"] if p]
@@ -417,7 +581,34 @@ def nontrivial(case, obs):
     return any(p[0] in t for p in pats)
 
 
+def tags_usage(case, obs):
+    t = ["kind:usage-" + ("direct" if case.get("direct") else "single-call"), "mode:" + case["mode"]]
+    if case.get("site"):
+        t.append("site:" + case["site"].split(":")[0])
+    un = us.units(case)
+    valid = [u for u, r in zip(un, obs["runs"]) if r.get("event", True)]
+    t.append("usage-schedules:" + ("0" if not valid else "1-9" if len(valid) < 10 else "10-99" if len(valid) < 100 else "100-999" if len(valid) < 1000 else ">=1000"))
+    if not case.get("direct"):
+        if any(u[2] > 0 for u in valid):
+            t.append("usage:tokens-in-window")
+        for e, name in ((1, "llm-end-in-window"), (2, "llm-end-before-resume")):
+            if any(u[3] == e for u in valid):
+                t.append("usage:" + name)
+        if len(valid) < len(un):
+            t.append("usage:some-schedules-before-event")
+    for c in sorted({classify(case, u) for u in valid} - {None}):
+        t.append("class:" + c)
+    mv = obs.get("model_vs_impl")
+    if mv is not None:
+        t.append("impl=repaired-model-on-every-chunking" if mv["differ"] == 0 else "impl=as-is-model-where-it-departs-from-repaired" if not mv["unexplained"] else "IMPL-MATCHES-NEITHER-MODEL")
+    if len({("".join(x for x in r["items"] if isinstance(x, str)), r["completion"]) for r in obs["runs"] if r.get("event", True)}) > 1:
+        t.append("USAGE-RESULT-VARIES-WITH-CHUNKING-OR-SCHEDULE")
+    return t
+
+
 def tags(case, obs):
+    if case.get("kind") == "usage":
+        return tags_usage(case, obs)
     t = ["mode:" + case["mode"], "end:" + case["end"], "pipe" if case["pipe"] else "queue", "feed:" + case["feed"]]
     if case.get("malformed"):
         t.append("malformed-empty-chunk")
@@ -452,6 +643,16 @@ def tags(case, obs):
 
 
 def shrink(case):
+    if case.get("kind") == "usage":
+        un = us.units(case)
+        if len(un) > 1:
+            step = max(1, len(un) // 50)
+            for k in list(range(min(len(un), 30))) + list(range(30, len(un), step)):
+                if case.get("direct"):
+                    yield dict(case, mode="list", chunkings=[un[k][0]])
+                else:
+                    yield dict(case, mode="list", schedules=[un[k]])
+        return
     # 1. a single chunking instead of all of them (both the first failing one and its neighbours are tried by the runner)
     cks = chunkings_of(case)
     if len(cks) > 1:
